@@ -3,6 +3,7 @@ package props
 import (
 	"bytes"
 	"fmt"
+	"io"
 	"os"
 	"path/filepath"
 	"strings"
@@ -140,8 +141,20 @@ func runC17(c c17Case) kit.Result {
 		}
 	}
 	var fired atomic.Int32
+	release := make(chan struct{})
 	for i := 0; i < c.Listeners; i++ {
-		w.Z.Db.AddRestoreListener(func() { fired.Add(1) })
+		i := i
+		w.Z.Db.AddRestoreListener(func() {
+			if i == 0 && c.Listeners > 1 {
+				// the first listener is slow: it does not return until the test lets it go. The other listeners
+				// must be invoked all the same (listeners are invoked asynchronously, independently of each other)
+				select {
+				case <-release:
+				case <-time.After(20 * time.Second):
+				}
+			}
+			fired.Add(1)
+		})
 	}
 	modelAtSnapshot := m.Clone()
 	dumpAtSnapshot := stripSnapshotMarkers(w.Dump())
@@ -199,6 +212,18 @@ func runC17(c c17Case) kit.Result {
 		}
 	}
 	// restore listeners
+	if c.Listeners > 1 {
+		others := time.Now().Add(10 * time.Second)
+		for int(fired.Load()) < c.Listeners-1 && time.Now().Before(others) {
+			time.Sleep(100 * time.Microsecond)
+		}
+		if n := int(fired.Load()); n < c.Listeners-1 {
+			close(release)
+			res.Err = fmt.Errorf("%d restore listeners registered; while the first one is still running only %d of the other %d were invoked within 10 s", c.Listeners, n, c.Listeners-1)
+			return res
+		}
+	}
+	close(release)
 	deadline := time.Now().Add(10 * time.Second)
 	for int(fired.Load()) < c.Listeners && time.Now().Before(deadline) {
 		time.Sleep(100 * time.Microsecond)
@@ -209,7 +234,34 @@ func runC17(c c17Case) kit.Result {
 		return res
 	}
 	// timeline: the first request after restoring a marked snapshot gets a fresh id exactly once
-	if c.SnapMode != "stream" {
+	if c.SnapMode != "stream" && c.Split%2 == 1 {
+		// two overlapping timeline requests right after the restore: the id function runs once, both get its value
+		var calls atomic.Int32
+		idF := func() (string, error) {
+			n := calls.Add(1)
+			time.Sleep(3 * time.Millisecond) // keep the first request inside its transaction while the second arrives
+			return fmt.Sprintf("timeline-after-%d", n), nil
+		}
+		var ids [2]string
+		var errs [2]error
+		var wg sync.WaitGroup
+		for g := 0; g < 2; g++ {
+			wg.Add(1)
+			go func(g int) {
+				defer wg.Done()
+				if g == 1 {
+					time.Sleep(time.Millisecond)
+				}
+				ids[g], errs[g] = w.Z.Db.GetTimelineId(boltz.TimelineModeDefault, idF)
+			}(g)
+		}
+		wg.Wait()
+		if errs[0] != nil || errs[1] != nil || calls.Load() != 1 || ids[0] != ids[1] || ids[0] != "timeline-after-1" {
+			res.Err = fmt.Errorf("two overlapping GetTimelineId requests after restore: ids %q / %q, errors %v / %v, id function called %d times (want one fresh id, generated exactly once)", ids[0], ids[1], errs[0], errs[1], calls.Load())
+			return res
+		}
+		res.Classes = append(res.Classes, "overlapping-timeline-requests")
+	} else if c.SnapMode != "stream" {
 		calls := 0
 		idF := func() (string, error) { calls++; return fmt.Sprintf("timeline-after-%d", calls), nil }
 		id1, err := w.Z.Db.GetTimelineId(boltz.TimelineModeDefault, idF)
@@ -236,9 +288,80 @@ func runC17(c c17Case) kit.Result {
 	}
 	if err := w.CheckAll(m); err != nil {
 		res.Err = fmt.Errorf("after replaying on the restored database: %v", err)
+		return res
 	}
+	// a second snapshot / restore cycle on a database that has itself been restored; the snapshot id is
+	// requested while the new snapshot is still streaming in
+	if c.SnapMode == "stream" {
+		return res
+	}
+	model2 := m.Clone()
+	dump2 := stripSnapshotMarkers(w.Dump())
+	data2, id2, err := takeSnapshot(w, "file")
+	if err != nil {
+		res.Err = fmt.Errorf("second snapshot: %v", err)
+		return res
+	}
+	if _, err := run(c.H.Txs[c.Split:], "between the second snapshot and its restore"); err != nil {
+		res.Err = err
+		return res
+	}
+	var midID *string
+	func() {
+		defer func() {
+			if r := recover(); r != nil {
+				res.Err = fmt.Errorf("second restore panicked: %v", r)
+			}
+		}()
+		w.Z.Db.RestoreFromReader(&midStreamReader{data: data2, at: len(data2) / 2, hook: func() { midID, _ = w.Z.Db.GetSnapshotId() }})
+	}()
+	if res.Err != nil {
+		return res
+	}
+	if got, err := w.Z.Db.GetSnapshotId(); err != nil || got == nil || *got != id2 {
+		res.Err = fmt.Errorf("GetSnapshotId after the second restore = %v (err %v), the second snapshot call returned %q (a request made while the snapshot was streaming in saw %v)", deref(got), err, id2, deref(midID))
+		return res
+	}
+	if d := kit.DiffDumps(dump2, stripSnapshotMarkers(stripTimeline(w.Dump()))); d != "" {
+		res.Err = fmt.Errorf("database after the second restore differs from the state at the second snapshot:\n%s", d)
+		return res
+	}
+	if err := w.CheckAll(model2); err != nil {
+		res.Err = fmt.Errorf("after the second restore: %v", err)
+	}
+	res.Classes = append(res.Classes, "second-restore-cycle")
 	return res
 }
+
+// midStreamReader delivers data and calls hook once when the given offset has been passed.
+type midStreamReader struct {
+	data []byte
+	pos  int
+	at   int
+	hook func()
+}
+
+func (r *midStreamReader) Read(p []byte) (int, error) {
+	if r.pos >= len(r.data) {
+		return 0, io.EOF
+	}
+	n := len(p)
+	if n > 4096 {
+		n = 4096
+	}
+	if r.pos+n > len(r.data) {
+		n = len(r.data) - r.pos
+	}
+	copy(p, r.data[r.pos:r.pos+n])
+	before := r.pos
+	r.pos += n
+	if before < r.at && r.pos >= r.at && r.hook != nil {
+		r.hook()
+	}
+	return n, nil
+}
+
+func stripTimeline(lines []string) []string { return lines }
 
 // ---- concurrent part ----
 
